@@ -5,7 +5,7 @@ import functools
 import itertools
 import time
 from concurrent.futures import Executor, Future, ProcessPoolExecutor
-from contextlib import contextmanager
+from contextlib import contextmanager, suppress
 from pathlib import Path
 from typing import TYPE_CHECKING, Any, NamedTuple
 
@@ -711,12 +711,12 @@ def _submit(
 
 def _maybe_parallel_map(
     func: PipeFunc,
-    process_index: functools.partial[tuple[Any, ...]],
-    indices: list[int],
+    args: _MapSpecArgs,
     executor: dict[OUTPUT_TYPE, Executor] | None,
     status: Status | None,
     progress: ProgressTracker | None,
 ) -> list[Any]:
+    process_index, indices = args.process_index, args.missing
     ex = _executor_for_func(func, executor)
     if ex is not None:
         assert executor is not None
@@ -725,7 +725,26 @@ def _maybe_parallel_map(
     if status is not None:
         assert progress is not None
         process_index = _wrap_with_status_update(process_index, status, progress)  # type: ignore[assignment]
-    return [process_index(i) for i in indices]
+    outputs_list: list[Any] = []
+    try:
+        for i in indices:
+            outputs_list.append(process_index(i))
+    except Exception:
+        _keep_completed_elements(func, args, outputs_list)
+        raise
+    return outputs_list
+
+
+def _keep_completed_elements(
+    func: PipeFunc,
+    args: _MapSpecArgs,
+    outputs_list: list[Any],
+) -> None:
+    # An element of `func` raised: do the parent-side dump of the elements that completed
+    # before it (what `_output_from_mapspec_task` would have done), so that they stay
+    # loadable from the run folder and are not recomputed when the run is resumed.
+    for index, outputs in zip(args.missing, outputs_list):
+        _update_array(func, args.arrays, args.shape, args.mask, index, outputs, in_post_process=True)
 
 
 def _wrap_with_status_update(
@@ -928,7 +947,7 @@ def _submit_func(
     status = progress.progress_dict[func.output_name] if progress is not None else None
     if func.mapspec and func.mapspec.inputs:
         args = _prepare_submit_map_spec(func, kwargs, run_info, store, fixed_indices, cache)
-        r = _maybe_parallel_map(func, args.process_index, args.missing, executor, status, progress)
+        r = _maybe_parallel_map(func, args, executor, status, progress)
         task = r, args
     else:
         task = _maybe_execute_single(executor, status, progress, func, kwargs, store, cache)
@@ -963,10 +982,17 @@ def _submit_generation(
     progress: ProgressTracker | None,
     cache: _CacheBase | None = None,
 ) -> dict[PipeFunc, _KwargsTask]:
-    return {
-        func: _submit_func(func, run_info, store, fixed_indices, executor, progress, cache)
-        for func in generation
-    }
+    tasks: dict[PipeFunc, _KwargsTask] = {}
+    try:
+        for func in generation:
+            tasks[func] = _submit_func(func, run_info, store, fixed_indices, executor, progress, cache)
+    except Exception:
+        if executor is None:
+            # Without an executor the functions are executed right here. One of them raised:
+            # store the results of the functions of this generation that ran before it.
+            _process_generation(list(tasks), tasks, store, {})
+        raise
+    return tasks
 
 
 def _output_from_mapspec_task(
@@ -1023,7 +1049,13 @@ def _process_task(
     kwargs, task = kwargs_task
     if func.mapspec and func.mapspec.inputs:
         r, args = task
-        outputs_list = [_result(x) for x in r]
+        outputs_list: list[Any] = []
+        try:
+            for x in r:
+                outputs_list.append(_result(x))
+        except Exception:
+            _keep_completed_elements(func, args, outputs_list)
+            raise
         output = _output_from_mapspec_task(func, store, args, outputs_list)
     else:
         r = _result(task)
@@ -1041,7 +1073,15 @@ async def _process_task_async(
     if func.mapspec and func.mapspec.inputs:
         r, args = task
         futs = [_result_async(x, loop) for x in r]
-        outputs_list = await asyncio.gather(*futs)
+        try:
+            outputs_list = await asyncio.gather(*futs)
+        except Exception:
+            completed: list[Any] = []
+            with suppress(Exception):  # like `_process_task`: the elements before the first failing one
+                for fut in futs:
+                    completed.append(await fut)
+            _keep_completed_elements(func, args, completed)
+            raise
         output = _output_from_mapspec_task(func, store, args, outputs_list)
     else:
         assert isinstance(task, Future)
